@@ -129,10 +129,12 @@ private:
 	}
 #else
 		int n;
+		ASL_VERIF_HOOK(10, this, 0);
 		if((n = pthread_create(&_thread, 0, f, arg)))
 		{
 			ASL_BAD_ALLOC();
 		}
+		ASL_VERIF_HOOK(11, this, 0);
 	}
 	void run(Function_ f, ThreadAttrib& a , void* arg=0)
 	{
@@ -146,8 +148,11 @@ private:
 	static ASL_THREADFUNC_RET ASL_THREADFUNC_API begin(void* p)
 	{
 		Thread* t = (Thread*)p;
+		ASL_VERIF_HOOK(12, t, 0);
 		t->run();
+		ASL_VERIF_HOOK(17, t, 0);
 		t->_threadFinished = true;
+		ASL_VERIF_HOOK(13, t, 0);
 		return 0;
 	}
 #ifdef ASL_EXP_THREADING
@@ -155,21 +160,29 @@ private:
 	static void ASL_THREADFUNC_API beginf(void* p)
 	{
 		Context<Func> s = *(Context<Func>*)p;
+		ASL_VERIF_HOOK(12, s.t, 0);
 		((Context<Func>*)p)->ready = true;
+		ASL_VERIF_HOOK(18, s.t, 0);
 		s.f();
+		ASL_VERIF_HOOK(17, s.t, 0);
 		s.t->_threadFinished = true;
+		ASL_VERIF_HOOK(13, s.t, 0);
 	}
 	template<class Func>
 	static void ASL_THREADFUNC_API beginfN(void* p)
 	{
 		if (!p) return;
 		Context<Func> s = *(Context<Func>*)p;
+		ASL_VERIF_HOOK(12, s.t, 0);
 		((Context<Func>*)p)->ready = true;
+		ASL_VERIF_HOOK(18, s.t, 0);
 		for (int i = s.i0; i < s.i1; i += s.s)
 		{
 			s.f(i);
 		}
+		ASL_VERIF_HOOK(17, s.t, 0);
 		s.t->_threadFinished = true;
+		ASL_VERIF_HOOK(13, s.t, 0);
 	}
 #endif
 public:
@@ -232,8 +245,10 @@ public:
 		WaitForSingleObject(_thread, INFINITE);
 #else
 		void* ret;
+		ASL_VERIF_HOOK(14, this, 0);
 		pthread_join(_thread, &ret);
 		_thread = 0;
+		ASL_VERIF_HOOK(15, this, 0);
 #endif
 	}
 	/**
@@ -269,6 +284,10 @@ public:
 	{
 		Context<Func> s = { f, t, false, 0, 0, 0 };
 		t->run((Function_)Thread::beginf<Func>, (void*)&s);
+#ifdef ASL_VERIF
+		while (!s.ready) { ASL_VERIF_HOOK(16, t, 0); }
+		ASL_VERIF_HOOK(19, t, 0);
+#endif
 		while (!s.ready) {}
 		return *t;
 	}
@@ -302,6 +321,10 @@ public:
 			threads << new Thread;
 			Context<F> s = { f, threads.last(), false, i0 + i, i1, n };
 			threads.last()->run((Function_)Thread::beginfN<F>, (void*)&s);
+#ifdef ASL_VERIF
+			while (!s.ready) { ASL_VERIF_HOOK(16, threads.last(), 0); }
+			ASL_VERIF_HOOK(19, threads.last(), 0);
+#endif
 			while (!s.ready) {}
 		}
 		foreach(Thread* t, threads)
